@@ -8,6 +8,7 @@ use std::sync::Arc;
 use vstd::std_specs::cmp::*;
 use vstd::std_specs::iter::IteratorSpec;
 verus! {
+global size_of usize == 8;
 //@ include prelude/numeric_id.vs
 //@ include prelude/std_extra.vs
 broadcast use {nid::ax_id_eq, nid::ax_id_cmp, nid::ax_id_obeys_eq, nid::ax_id_obeys_cmp, nid::ax_id_obeys_partial_cmp, nid::ax_id_partial_cmp, stdx::ax_iter_seq_vec};
@@ -167,6 +168,30 @@ impl<T> SegQueue<T> {
 pub struct RowBuffer { _p: core::marker::PhantomData<u8> }
 pub uninterp spec fn table_arity() -> nat;
 impl RowBuffer {
+    pub uninterp spec fn view(&self) -> Seq<Seq<Value>>;
+    // A-db: RowBuffer as the sequence of its rows (get_row / add_row / set_stale), as for Rows above
+    #[verifier::external_body]
+    pub fn get_row(&self, row: RowId) -> (r: &[Value])
+        requires row.ix() < self@.len(),
+        ensures r@ == self@[row.ix() as int]
+    { unimplemented!() }
+    #[verifier::external_body]
+    pub fn add_row(&mut self, row: &[Value]) -> (r: RowId)
+        ensures r.ix() == old(self)@.len(), final(self)@ == old(self)@.push(row@)
+    { unimplemented!() }
+    #[verifier::external_body]
+    pub fn set_stale(&mut self, row: RowId)
+        requires row.ix() < old(self)@.len(), old(self)@[row.ix() as int].len() > 0,
+        ensures
+            final(self)@.len() == old(self)@.len(),
+            stale(final(self)@[row.ix() as int]),
+            final(self)@[row.ix() as int].len() == old(self)@[row.ix() as int].len(),
+            forall|j: int| 0 <= j < old(self)@.len() && j != row.ix() ==> final(self)@[j] == old(self)@[j],
+    { unimplemented!() }
+    #[verifier::external_body]
+    pub fn len(&self) -> (r: usize) ensures r == self@.len() { unimplemented!() }
+    #[verifier::external_body]
+    pub fn clear(&mut self) ensures final(self)@.len() == 0 { unimplemented!() }
     // A-db: the non-stale rows of a staged buffer, in order; all of the table's arity
     #[verifier::external_body]
     pub fn non_stale(&self) -> (r: &Vec<Vec<Value>>)
@@ -181,6 +206,61 @@ impl<K, V> DenseIdMap<K, V> {
     #[verifier::external_body]
     pub fn iter(&self) -> (r: &Vec<(K, V)>) { unimplemented!() }
 }
+/// A-hash: hashbrown::HashTable<TableEntry> as the map row id -> stored hash code, and its entry API. The entry borrows
+/// the table: what the caller writes through it is what the table holds afterwards (prophecy on the inner &mut).
+#[verifier::external_body]
+#[verifier::reject_recursive_types(T)]
+pub struct HashTable<T> { _p: core::marker::PhantomData<T> }
+pub struct OccupiedEntry<'a> { pub e: &'a mut TableEntry }
+pub struct VacantEntry<'a> { pub slot: &'a mut Option<TableEntry> }
+impl<'a> OccupiedEntry<'a> {
+    pub open spec fn cur(&self) -> TableEntry { *self.e }
+    #[verifier::external_body]
+    pub fn get(&self) -> (r: &TableEntry) ensures *r == self.cur() { unimplemented!() }
+    #[verifier::external_body]
+    pub fn get_mut(&mut self) -> (r: &mut TableEntry)
+        ensures *r == old(self).cur(), final(self).cur() == *final(r), *final(final(self).e) == *final(old(self).e)
+    { unimplemented!() }
+}
+impl<'a> VacantEntry<'a> {
+    #[verifier::external_body]
+    pub fn insert(self, t: TableEntry) ensures *final(self.slot) == Some(t) { unimplemented!() }
+}
+pub mod hashbrown { pub mod hash_table {
+    pub enum Entry<'a> { Occupied(super::super::OccupiedEntry<'a>), Vacant(super::super::VacantEntry<'a>) }
+} }
+impl HashTable<TableEntry> {
+    pub uninterp spec fn view(&self) -> Map<RowId, u64>;
+    #[verifier::external_body]
+    pub fn clear(&mut self) ensures final(self)@ == Map::<RowId, u64>::empty() { unimplemented!() }
+    // A-hash: entry(hash, eq, hasher): Occupied with an entry stored under `hash` for which eq holds, if there is one;
+    // otherwise Vacant, and then no entry stored under `hash` satisfies eq
+    #[verifier::external_body]
+    pub fn entry<'a, E: Fn(&TableEntry) -> bool, H: Fn(&TableEntry) -> u64>(&'a mut self, hash: u64, eq: E, hasher: H) -> (r: hashbrown::hash_table::Entry<'a>)
+        requires forall|id: RowId| #[trigger] old(self)@.contains_key(id) ==> eq.requires((&TableEntry { hashcode: old(self)@[id], row: id },)),
+        ensures match r {
+            hashbrown::hash_table::Entry::Occupied(o) =>
+                old(self)@.contains_key(o.e.row) && old(self)@[o.e.row] == o.e.hashcode && eq.ensures((&*o.e,), true)
+                && final(self)@ == old(self)@.remove(o.e.row).insert(final(o.e).row, final(o.e).hashcode),
+            hashbrown::hash_table::Entry::Vacant(v) =>
+                *v.slot is None
+                && (forall|id: RowId| #[trigger] old(self)@.contains_key(id) && old(self)@[id] == hash ==> eq.ensures((&TableEntry { hashcode: hash, row: id },), false))
+                && final(self)@ == (match *final(v.slot) { Some(t) => old(self)@.insert(t.row, t.hashcode), None => old(self)@ }),
+        }
+    { unimplemented!() }
+}
+/// the `impl FnMut(&[Value], &[Value], &mut Vec<Value>) -> bool` merge argument of StagedOutputs::insert (R-FNPARAM):
+/// the same pure function mch/mo as the table's merge callback (parallel_insert passes exactly that)
+#[verifier::external_body]
+pub struct StagedMergeFn { _p: core::marker::PhantomData<u8> }
+impl StagedMergeFn {
+    #[verifier::external_body]
+    pub fn vc_call(&mut self, cur: &[Value], new: &[Value], out: &mut Vec<Value>) -> (r: bool)
+        requires old(out)@.len() == 0,
+        ensures r == mch(cur@, new@), r ==> final(out)@ == mo(cur@, new@), !r ==> final(out)@.len() == 0,
+    { unimplemented!() }
+}
+
 pub struct PendingState { pub pending_rows: DenseIdMap<ShardId, SegQueue<RowBuffer>> }
 
 //@ item core-relations/src/table/mod.rs struct SortedWritesTable only data hash n_keys sort_by offsets pending_state merge
@@ -194,44 +274,64 @@ pub open spec fn merge_keeps_key(n_keys: nat) -> bool {
         ==> mo(a, b).len() == table_arity() && keyof(mo(a, b), n_keys) == keyof(b, n_keys) && !stale(mo(a, b))
 }
 
-impl SortedWritesTable {
-    pub open spec fn rows(&self) -> Seq<Seq<Value>> { self.data@ }
-    pub open spec fn idx(&self) -> Map<RowId, u64> { self.hash@ }
+// the keyed-map invariant over (row store, hash index, number of key columns). Free functions, so that the quantifier
+// triggers are terms over the row store / index themselves and not over a wrapper.
+pub open spec fn km_shape(rows: Seq<Seq<Value>>, n_keys: nat) -> bool {
+    &&& n_keys <= table_arity() && 1 <= table_arity()
+    &&& rows.len() <= u32::MAX + 1
+    &&& forall|i: int| 0 <= i < rows.len() ==> (#[trigger] rows[i]).len() == table_arity()
+}
+/// every index entry points at a live row whose key hashes to the stored code
+pub open spec fn km_entries(rows: Seq<Seq<Value>>, idx: Map<RowId, u64>, n_keys: nat) -> bool {
+    forall|id: RowId| #[trigger] idx.contains_key(id) ==> id.ix() < rows.len() && !stale(rows[id.ix() as int])
+            && idx[id] == hcs(keyof(rows[id.ix() as int], n_keys))
+}
+/// two entries never share a key
+pub open spec fn km_distinct(rows: Seq<Seq<Value>>, idx: Map<RowId, u64>, n_keys: nat) -> bool {
+    forall|a: RowId, b: RowId| #![trigger idx.contains_key(a), idx.contains_key(b)]
+            idx.contains_key(a) && idx.contains_key(b) && a != b
+            ==> keyof(rows[a.ix() as int], n_keys) != keyof(rows[b.ix() as int], n_keys)
+}
+/// every live row is indexed
+pub open spec fn km_indexed(rows: Seq<Seq<Value>>, idx: Map<RowId, u64>) -> bool {
+    forall|i: int| 0 <= i < rows.len() && !stale(#[trigger] rows[i]) ==> idx.contains_key(RowId { rep: i as u32 })
+}
 
-    /// the table is a keyed map: every index entry points at a live row whose key hashes to the stored code, two
-    /// entries never share a key, and every live row is indexed
-    pub open spec fn wf_shape(&self) -> bool {
-        &&& 1 <= self.n_keys <= table_arity()
-        &&& self.rows().len() <= u32::MAX + 1
-        &&& forall|i: int| 0 <= i < self.rows().len() ==> (#[trigger] self.rows()[i]).len() == table_arity()
-        &&& (self.sort_by is Some ==> self.sort_by->Some_0.ix() < table_arity())
-    }
-    pub open spec fn wf_entries(&self) -> bool {
-        forall|id: RowId| #[trigger] self.idx().contains_key(id) ==> id.ix() < self.rows().len() && !stale(self.rows()[id.ix() as int])
-                && self.idx()[id] == hcs(keyof(self.rows()[id.ix() as int], self.n_keys as nat))
-    }
-    pub open spec fn wf_distinct(&self) -> bool {
-        forall|a: RowId, b: RowId| #![trigger self.idx().contains_key(a), self.idx().contains_key(b)]
-                self.idx().contains_key(a) && self.idx().contains_key(b) && a != b
-                ==> keyof(self.rows()[a.ix() as int], self.n_keys as nat) != keyof(self.rows()[b.ix() as int], self.n_keys as nat)
-    }
-    pub open spec fn wf_indexed(&self) -> bool {
-        forall|i: int| 0 <= i < self.rows().len() && !stale(#[trigger] self.rows()[i]) ==> self.idx().contains_key(RowId { rep: i as u32 })
-    }
+/// the keyed-map view of a table: the row store (every row ever appended; superseded ones marked stale in column 0),
+/// the hash index (row id -> stored hash code) and the number of key columns
+pub struct KM { pub rows: Seq<Seq<Value>>, pub idx: Map<RowId, u64>, pub n_keys: nat }
+impl KM {
+    pub open spec fn wf_shape(&self) -> bool { km_shape(self.rows, self.n_keys) }
+    pub open spec fn wf_entries(&self) -> bool { km_entries(self.rows, self.idx, self.n_keys) }
+    pub open spec fn wf_distinct(&self) -> bool { km_distinct(self.rows, self.idx, self.n_keys) }
+    pub open spec fn wf_indexed(&self) -> bool { km_indexed(self.rows, self.idx) }
     pub open spec fn wf(&self) -> bool {
         self.wf_shape() && self.wf_entries() && self.wf_distinct() && self.wf_indexed()
     }
 
     /// the live rows (the contents of the map)
     pub open spec fn live(&self, row: Seq<Value>) -> bool {
-        exists|id: RowId| #[trigger] self.idx().contains_key(id) && self.rows()[id.ix() as int] == row
+        exists|id: RowId| #[trigger] self.idx.contains_key(id) && self.rows[id.ix() as int] == row
+    }
+}
+
+impl SortedWritesTable {
+    pub open spec fn km(&self) -> KM { KM { rows: self.data@, idx: self.hash@, n_keys: self.n_keys as nat } }
+    pub open spec fn wf_shape(&self) -> bool {
+        km_shape(self.data@, self.n_keys as nat) && (self.sort_by is Some ==> self.sort_by->Some_0.ix() < table_arity())
+    }
+    pub open spec fn wf_entries(&self) -> bool { km_entries(self.data@, self.hash@, self.n_keys as nat) }
+    pub open spec fn wf_distinct(&self) -> bool { km_distinct(self.data@, self.hash@, self.n_keys as nat) }
+    pub open spec fn wf_indexed(&self) -> bool { km_indexed(self.data@, self.hash@) }
+    pub open spec fn wf(&self) -> bool {
+        self.wf_shape() && self.wf_entries() && self.wf_distinct() && self.wf_indexed()
     }
 }
 
 /// one pending row `q` applied to the table `a`, giving `b` (C05: the merge is applied on every collision):
 /// key absent -> q is stored; key present with stored row cur -> cur is replaced by the MERGED row mo(cur, q) iff the
 /// merge function reports a change, otherwise nothing changes. (Keys are unique among live rows, see wf_distinct.)
-pub open spec fn applied(n_keys: nat, a: SortedWritesTable, q: Seq<Value>, b: SortedWritesTable) -> bool {
+pub open spec fn applied(n_keys: nat, a: KM, q: Seq<Value>, b: KM) -> bool {
     &&& forall|cur: Seq<Value>| #![trigger a.live(cur)] a.live(cur) && keyof(cur, n_keys) == keyof(q, n_keys) ==>
             (if mch(cur, q) { forall|r: Seq<Value>| #![trigger b.live(r)] b.live(r) <==> ((a.live(r) && r != cur) || r == mo(cur, q)) }
              else { forall|r: Seq<Value>| #![trigger b.live(r)] b.live(r) <==> a.live(r) })
@@ -240,93 +340,93 @@ pub open spec fn applied(n_keys: nat, a: SortedWritesTable, q: Seq<Value>, b: So
 }
 
 /// the three ways one loop iteration of serial_insert relates the table before (a) and after (b)
-pub open spec fn step_same(n: nat, a: SortedWritesTable, q: Seq<Value>, b: SortedWritesTable) -> bool {
-    b.rows() =~= a.rows() && b.idx() =~= a.idx()
-    && exists|id: RowId| #[trigger] a.idx().contains_key(id) && keyof(a.rows()[id.ix() as int], n) == keyof(q, n) && !mch(a.rows()[id.ix() as int], q)
+pub open spec fn step_same(n: nat, a: KM, q: Seq<Value>, b: KM) -> bool {
+    b.rows =~= a.rows && b.idx =~= a.idx
+    && exists|id: RowId| #[trigger] a.idx.contains_key(id) && keyof(a.rows[id.ix() as int], n) == keyof(q, n) && !mch(a.rows[id.ix() as int], q)
 }
-pub open spec fn step_merge(n: nat, a: SortedWritesTable, q: Seq<Value>, b: SortedWritesTable) -> bool {
-    exists|id: RowId| #[trigger] a.idx().contains_key(id) && keyof(a.rows()[id.ix() as int], n) == keyof(q, n) && mch(a.rows()[id.ix() as int], q)
-        && a.rows().len() <= u32::MAX && b.rows().len() == a.rows().len() + 1
-        && b.rows()[a.rows().len() as int] == mo(a.rows()[id.ix() as int], q)
-        && stale(b.rows()[id.ix() as int])
-        && (forall|j: int| 0 <= j < a.rows().len() && j != id.ix() ==> #[trigger] b.rows()[j] == a.rows()[j])
-        && b.idx() =~= a.idx().remove(id).insert(RowId { rep: a.rows().len() as u32 }, a.idx()[id])
+pub open spec fn step_merge(n: nat, a: KM, q: Seq<Value>, b: KM) -> bool {
+    exists|id: RowId| #[trigger] a.idx.contains_key(id) && keyof(a.rows[id.ix() as int], n) == keyof(q, n) && mch(a.rows[id.ix() as int], q)
+        && a.rows.len() <= u32::MAX && b.rows.len() == a.rows.len() + 1
+        && b.rows[a.rows.len() as int] == mo(a.rows[id.ix() as int], q)
+        && stale(b.rows[id.ix() as int])
+        && (forall|j: int| 0 <= j < a.rows.len() && j != id.ix() ==> #[trigger] b.rows[j] == a.rows[j])
+        && b.idx =~= a.idx.remove(id).insert(RowId { rep: a.rows.len() as u32 }, a.idx[id])
 }
-pub open spec fn has_key(n: nat, a: SortedWritesTable, q: Seq<Value>) -> bool {
-    exists|id: RowId| #[trigger] a.idx().contains_key(id) && keyof(a.rows()[id.ix() as int], n) == keyof(q, n)
+pub open spec fn has_key(n: nat, a: KM, q: Seq<Value>) -> bool {
+    exists|id: RowId| #[trigger] a.idx.contains_key(id) && keyof(a.rows[id.ix() as int], n) == keyof(q, n)
 }
-pub open spec fn step_new(n: nat, a: SortedWritesTable, q: Seq<Value>, b: SortedWritesTable) -> bool {
-    (forall|id: RowId| #[trigger] a.idx().contains_key(id) ==> keyof(a.rows()[id.ix() as int], n) != keyof(q, n))
-    && a.rows().len() <= u32::MAX && b.rows() =~= a.rows().push(q)
-    && exists|h: u64| b.idx() =~= #[trigger] a.idx().insert(RowId { rep: a.rows().len() as u32 }, h)
+pub open spec fn step_new(n: nat, a: KM, q: Seq<Value>, b: KM) -> bool {
+    (forall|id: RowId| #[trigger] a.idx.contains_key(id) ==> keyof(a.rows[id.ix() as int], n) != keyof(q, n))
+    && a.rows.len() <= u32::MAX && b.rows =~= a.rows.push(q)
+    && exists|h: u64| b.idx =~= #[trigger] a.idx.insert(RowId { rep: a.rows.len() as u32 }, h)
 }
 
-pub proof fn lemma_applied(n: nat, a: SortedWritesTable, q: Seq<Value>, b: SortedWritesTable)
+pub proof fn lemma_applied(n: nat, a: KM, q: Seq<Value>, b: KM)
     requires
         a.wf(), n == a.n_keys,
         step_same(n, a, q, b) || step_merge(n, a, q, b) || step_new(n, a, q, b),
     ensures applied(n, a, q, b),
 {
-    let len0 = a.rows().len() as int;
+    let len0 = a.rows.len() as int;
     let newid = RowId { rep: len0 as u32 };
     if step_new(n, a, q, b) || step_merge(n, a, q, b) {
         assert(newid.ix() == len0);
-        assert(!a.idx().contains_key(newid)) by { if a.idx().contains_key(newid) { assert(newid.ix() < a.rows().len()); } }
+        assert(!a.idx.contains_key(newid)) by { if a.idx.contains_key(newid) { assert(newid.ix() < a.rows.len()); } }
     }
     if step_new(n, a, q, b) {
         assert forall|cur: Seq<Value>| #![trigger a.live(cur)] a.live(cur) implies keyof(cur, n) != keyof(q, n) by {
-            let c = choose|c: RowId| #[trigger] a.idx().contains_key(c) && a.rows()[c.ix() as int] == cur;
+            let c = choose|c: RowId| #[trigger] a.idx.contains_key(c) && a.rows[c.ix() as int] == cur;
         }
         assert forall|r: Seq<Value>| #![trigger b.live(r)] b.live(r) <==> (a.live(r) || r == q) by {
             if b.live(r) {
-                let c = choose|c: RowId| #[trigger] b.idx().contains_key(c) && b.rows()[c.ix() as int] == r;
-                if c != newid { assert(a.idx().contains_key(c)); assert(b.rows()[c.ix() as int] == a.rows()[c.ix() as int]); }
+                let c = choose|c: RowId| #[trigger] b.idx.contains_key(c) && b.rows[c.ix() as int] == r;
+                if c != newid { assert(a.idx.contains_key(c)); assert(b.rows[c.ix() as int] == a.rows[c.ix() as int]); }
             }
             if a.live(r) {
-                let c = choose|c: RowId| #[trigger] a.idx().contains_key(c) && a.rows()[c.ix() as int] == r;
-                assert(b.idx().contains_key(c)); assert(b.rows()[c.ix() as int] == r);
+                let c = choose|c: RowId| #[trigger] a.idx.contains_key(c) && a.rows[c.ix() as int] == r;
+                assert(b.idx.contains_key(c)); assert(b.rows[c.ix() as int] == r);
             }
-            if r == q { assert(b.idx().contains_key(newid)); assert(b.rows()[newid.ix() as int] == q); }
+            if r == q { assert(b.idx.contains_key(newid)); assert(b.rows[newid.ix() as int] == q); }
         }
     } else if step_merge(n, a, q, b) {
-        let id = choose|id: RowId| #[trigger] a.idx().contains_key(id) && keyof(a.rows()[id.ix() as int], n) == keyof(q, n) && mch(a.rows()[id.ix() as int], q)
-            && b.rows().len() == a.rows().len() + 1
-            && b.rows()[a.rows().len() as int] == mo(a.rows()[id.ix() as int], q)
-            && stale(b.rows()[id.ix() as int])
-            && (forall|j: int| 0 <= j < a.rows().len() && j != id.ix() ==> #[trigger] b.rows()[j] == a.rows()[j])
-            && b.idx() =~= a.idx().remove(id).insert(RowId { rep: a.rows().len() as u32 }, a.idx()[id]);
-        let cur0 = a.rows()[id.ix() as int];
+        let id = choose|id: RowId| #[trigger] a.idx.contains_key(id) && keyof(a.rows[id.ix() as int], n) == keyof(q, n) && mch(a.rows[id.ix() as int], q)
+            && b.rows.len() == a.rows.len() + 1
+            && b.rows[a.rows.len() as int] == mo(a.rows[id.ix() as int], q)
+            && stale(b.rows[id.ix() as int])
+            && (forall|j: int| 0 <= j < a.rows.len() && j != id.ix() ==> #[trigger] b.rows[j] == a.rows[j])
+            && b.idx =~= a.idx.remove(id).insert(RowId { rep: a.rows.len() as u32 }, a.idx[id]);
+        let cur0 = a.rows[id.ix() as int];
         assert forall|cur: Seq<Value>| #![trigger a.live(cur)] a.live(cur) && keyof(cur, n) == keyof(q, n) implies
             (if mch(cur, q) { forall|r: Seq<Value>| #![trigger b.live(r)] b.live(r) <==> ((a.live(r) && r != cur) || r == mo(cur, q)) }
              else { forall|r: Seq<Value>| #![trigger b.live(r)] b.live(r) <==> a.live(r) }) by {
-            let c = choose|c: RowId| #[trigger] a.idx().contains_key(c) && a.rows()[c.ix() as int] == cur;
+            let c = choose|c: RowId| #[trigger] a.idx.contains_key(c) && a.rows[c.ix() as int] == cur;
             assert(c == id);
             assert(cur == cur0);
             assert forall|r: Seq<Value>| #![trigger b.live(r)] b.live(r) <==> ((a.live(r) && r != cur) || r == mo(cur, q)) by {
                 if b.live(r) {
-                    let d = choose|d: RowId| #[trigger] b.idx().contains_key(d) && b.rows()[d.ix() as int] == r;
+                    let d = choose|d: RowId| #[trigger] b.idx.contains_key(d) && b.rows[d.ix() as int] == r;
                     if d != newid {
-                        assert(a.idx().contains_key(d) && d != id);
-                        assert(b.rows()[d.ix() as int] == a.rows()[d.ix() as int]);
-                        assert(keyof(a.rows()[d.ix() as int], n) != keyof(cur0, n));
+                        assert(a.idx.contains_key(d) && d != id);
+                        assert(b.rows[d.ix() as int] == a.rows[d.ix() as int]);
+                        assert(keyof(a.rows[d.ix() as int], n) != keyof(cur0, n));
                     }
                 }
                 if a.live(r) && r != cur {
-                    let d = choose|d: RowId| #[trigger] a.idx().contains_key(d) && a.rows()[d.ix() as int] == r;
+                    let d = choose|d: RowId| #[trigger] a.idx.contains_key(d) && a.rows[d.ix() as int] == r;
                     assert(d != id);
-                    assert(b.idx().contains_key(d)); assert(b.rows()[d.ix() as int] == r);
+                    assert(b.idx.contains_key(d)); assert(b.rows[d.ix() as int] == r);
                 }
-                if r == mo(cur, q) { assert(b.idx().contains_key(newid)); assert(b.rows()[newid.ix() as int] == r); }
+                if r == mo(cur, q) { assert(b.idx.contains_key(newid)); assert(b.rows[newid.ix() as int] == r); }
             }
         }
         assert(a.live(cur0));
     } else {
-        let id = choose|id: RowId| #[trigger] a.idx().contains_key(id) && keyof(a.rows()[id.ix() as int], n) == keyof(q, n) && !mch(a.rows()[id.ix() as int], q);
-        let cur0 = a.rows()[id.ix() as int];
+        let id = choose|id: RowId| #[trigger] a.idx.contains_key(id) && keyof(a.rows[id.ix() as int], n) == keyof(q, n) && !mch(a.rows[id.ix() as int], q);
+        let cur0 = a.rows[id.ix() as int];
         assert forall|cur: Seq<Value>| #![trigger a.live(cur)] a.live(cur) && keyof(cur, n) == keyof(q, n) implies
             (if mch(cur, q) { forall|r: Seq<Value>| #![trigger b.live(r)] b.live(r) <==> ((a.live(r) && r != cur) || r == mo(cur, q)) }
              else { forall|r: Seq<Value>| #![trigger b.live(r)] b.live(r) <==> a.live(r) }) by {
-            let c = choose|c: RowId| #[trigger] a.idx().contains_key(c) && a.rows()[c.ix() as int] == cur;
+            let c = choose|c: RowId| #[trigger] a.idx.contains_key(c) && a.rows[c.ix() as int] == cur;
             assert(c == id);
         }
         assert(a.live(cur0));
@@ -334,17 +434,17 @@ pub proof fn lemma_applied(n: nat, a: SortedWritesTable, q: Seq<Value>, b: Sorte
 }
 
 /// trigger-only marker for the witness sequences
-pub open spec fn wit(ts: Seq<SortedWritesTable>, qs: Seq<Seq<Value>>) -> bool { true }
+pub open spec fn wit(ts: Seq<KM>, qs: Seq<Seq<Value>>) -> bool { true }
 
 /// `last` is `first` after applying the pending rows qs one after the other
-pub open spec fn chain(n_keys: nat, first: SortedWritesTable, last: SortedWritesTable, ts: Seq<SortedWritesTable>, qs: Seq<Seq<Value>>) -> bool {
+pub open spec fn chain(n_keys: nat, first: KM, last: KM, ts: Seq<KM>, qs: Seq<Seq<Value>>) -> bool {
     &&& ts.len() == qs.len() + 1
     &&& ts[0] == first
     &&& ts.last() == last
     &&& forall|k: int| 0 <= k < qs.len() ==> applied(n_keys, #[trigger] ts[k], qs[k], ts[k + 1])
 }
 
-pub proof fn lemma_chain_push(n: nat, first: SortedWritesTable, t0: SortedWritesTable, ts: Seq<SortedWritesTable>, qs: Seq<Seq<Value>>, q: Seq<Value>, t1: SortedWritesTable)
+pub proof fn lemma_chain_push(n: nat, first: KM, t0: KM, ts: Seq<KM>, qs: Seq<Seq<Value>>, q: Seq<Value>, t1: KM)
     requires chain(n, first, t0, ts, qs), applied(n, t0, q, t1),
     ensures chain(n, first, t1, ts.push(t1), qs.push(q)),
 {
@@ -375,9 +475,9 @@ pub proof fn lemma_chain_push(n: nat, first: SortedWritesTable, t0: SortedWrites
             final(self).n_keys == old(self).n_keys,
             final(self).sort_by == old(self).sort_by,
             // C05: the final contents are the initial ones with every pending row applied through the merge function
-            exists|ts: Seq<SortedWritesTable>, qs: Seq<Seq<Value>>| #![trigger wit(ts, qs)] wit(ts, qs) && chain(old(self).n_keys as nat, *old(self), *final(self), ts, qs),
+            exists|ts: Seq<KM>, qs: Seq<Seq<Value>>| #![trigger wit(ts, qs)] wit(ts, qs) && chain(old(self).n_keys as nat, old(self).km(), final(self).km(), ts, qs),
 //@ at entry
-        let ghost mut ts: Seq<SortedWritesTable> = seq![*self];
+        let ghost mut ts: Seq<KM> = seq![self.km()];
         let ghost mut qs: Seq<Seq<Value>> = Seq::empty();
 //@ at tail
         proof { assert(wit(ts, qs)); }
@@ -401,7 +501,7 @@ pub proof fn lemma_chain_push(n: nat, first: SortedWritesTable, t0: SortedWrites
                     self.wf_entries(),
                     self.wf_distinct(),
                     self.wf_indexed(),
-                    chain(n_keys as nat, *old(self), *self, ts, qs),
+                    chain(n_keys as nat, old(self).km(), self.km(), ts, qs),
                     merge_keeps_key(n_keys as nat), n_keys == self.n_keys, scratch@.len() == 0,
                     self.n_keys == old(self).n_keys, self.sort_by == old(self).sort_by,
 //@ at before-loop 1
@@ -412,7 +512,7 @@ pub proof fn lemma_chain_push(n: nat, first: SortedWritesTable, t0: SortedWrites
                     self.wf_entries(),
                     self.wf_distinct(),
                     self.wf_indexed(),
-                    chain(n_keys as nat, *old(self), *self, ts, qs),
+                    chain(n_keys as nat, old(self).km(), self.km(), ts, qs),
                     merge_keeps_key(n_keys as nat), n_keys == self.n_keys, scratch@.len() == 0,
                     self.n_keys == old(self).n_keys, self.sort_by == old(self).sort_by,
 //@ at before-loop 2
@@ -424,25 +524,25 @@ pub proof fn lemma_chain_push(n: nat, first: SortedWritesTable, t0: SortedWrites
                     self.wf_entries(),
                     self.wf_distinct(),
                     self.wf_indexed(),
-                    chain(n_keys as nat, *old(self), *self, ts, qs),
+                    chain(n_keys as nat, old(self).km(), self.km(), ts, qs),
                     merge_keeps_key(n_keys as nat), n_keys == self.n_keys, scratch@.len() == 0,
                     self.n_keys == old(self).n_keys, self.sort_by == old(self).sort_by,
 //@ at loop 2 body-start
-                        let ghost t0 = *self;
+                        let ghost t0 = self.km();
 //@ at loop 2 body-end
                         proof {
                             assert(t0.wf());
-                            if self.rows().len() == t0.rows().len() { assert(step_same(n_keys as nat, t0, query@, *self)); }
-                            else if has_key(n_keys as nat, t0, query@) { assert(step_merge(n_keys as nat, t0, query@, *self)); }
+                            if self.km().rows.len() == t0.rows.len() { assert(step_same(n_keys as nat, t0, query@, self.km())); }
+                            else if has_key(n_keys as nat, t0, query@) { assert(step_merge(n_keys as nat, t0, query@, self.km())); }
                             else {
-                                assert(t0.rows().len() <= u32::MAX);
-                                assert(self.rows() =~= t0.rows().push(query@));
-                                assert(self.idx() =~= t0.idx().insert(RowId { rep: t0.rows().len() as u32 }, hcs(keyof(query@, n_keys as nat))));
-                                assert(step_new(n_keys as nat, t0, query@, *self));
+                                assert(t0.rows.len() <= u32::MAX);
+                                assert(self.km().rows =~= t0.rows.push(query@));
+                                assert(self.km().idx =~= t0.idx.insert(RowId { rep: t0.rows.len() as u32 }, hcs(keyof(query@, n_keys as nat))));
+                                assert(step_new(n_keys as nat, t0, query@, self.km()));
                             }
-                            lemma_applied(n_keys as nat, t0, query@, *self);
-                            lemma_chain_push(n_keys as nat, *old(self), t0, ts, qs, query@, *self);
-                            ts = ts.push(*self);
+                            lemma_applied(n_keys as nat, t0, query@, self.km());
+                            lemma_chain_push(n_keys as nat, old(self).km(), t0, ts, qs, query@, self.km());
+                            ts = ts.push(self.km());
                             qs = qs.push(query@);
                         }
 //@ at before-loop 3
@@ -453,7 +553,7 @@ pub proof fn lemma_chain_push(n: nat, first: SortedWritesTable, t0: SortedWrites
                     self.wf_entries(),
                     self.wf_distinct(),
                     self.wf_indexed(),
-                    chain(n_keys as nat, *old(self), *self, ts, qs),
+                    chain(n_keys as nat, old(self).km(), self.km(), ts, qs),
                     merge_keeps_key(n_keys as nat), n_keys == self.n_keys, scratch@.len() == 0,
                     self.n_keys == old(self).n_keys, self.sort_by == old(self).sort_by,
 //@ at before-loop 4
@@ -465,27 +565,135 @@ pub proof fn lemma_chain_push(n: nat, first: SortedWritesTable, t0: SortedWrites
                     self.wf_entries(),
                     self.wf_distinct(),
                     self.wf_indexed(),
-                    chain(n_keys as nat, *old(self), *self, ts, qs),
+                    chain(n_keys as nat, old(self).km(), self.km(), ts, qs),
                     merge_keeps_key(n_keys as nat), n_keys == self.n_keys, scratch@.len() == 0,
                     self.n_keys == old(self).n_keys, self.sort_by == old(self).sort_by,
 //@ at loop 4 body-start
-                        let ghost t0 = *self;
+                        let ghost t0 = self.km();
 //@ at loop 4 body-end
                         proof {
                             assert(t0.wf());
-                            if self.rows().len() == t0.rows().len() { assert(step_same(n_keys as nat, t0, query@, *self)); }
-                            else if has_key(n_keys as nat, t0, query@) { assert(step_merge(n_keys as nat, t0, query@, *self)); }
+                            if self.km().rows.len() == t0.rows.len() { assert(step_same(n_keys as nat, t0, query@, self.km())); }
+                            else if has_key(n_keys as nat, t0, query@) { assert(step_merge(n_keys as nat, t0, query@, self.km())); }
                             else {
-                                assert(t0.rows().len() <= u32::MAX);
-                                assert(self.rows() =~= t0.rows().push(query@));
-                                assert(self.idx() =~= t0.idx().insert(RowId { rep: t0.rows().len() as u32 }, hcs(keyof(query@, n_keys as nat))));
-                                assert(step_new(n_keys as nat, t0, query@, *self));
+                                assert(t0.rows.len() <= u32::MAX);
+                                assert(self.km().rows =~= t0.rows.push(query@));
+                                assert(self.km().idx =~= t0.idx.insert(RowId { rep: t0.rows.len() as u32 }, hcs(keyof(query@, n_keys as nat))));
+                                assert(step_new(n_keys as nat, t0, query@, self.km()));
                             }
-                            lemma_applied(n_keys as nat, t0, query@, *self);
-                            lemma_chain_push(n_keys as nat, *old(self), t0, ts, qs, query@, *self);
-                            ts = ts.push(*self);
+                            lemma_applied(n_keys as nat, t0, query@, self.km());
+                            lemma_chain_push(n_keys as nat, old(self).km(), t0, ts, qs, query@, self.km());
+                            ts = ts.push(self.km());
                             qs = qs.push(query@);
                         }
+//@ end-fn
+//@ end-impl
+
+// ---------------- StagedOutputs::insert: the in-batch staging collision path -------------------------------------
+//@ item core-relations/src/table/mod.rs struct StagedOutputs
+impl StagedOutputs {
+    pub open spec fn km(&self) -> KM { KM { rows: self.rows@, idx: self.hash@, n_keys: self.n_keys as nat } }
+    pub open spec fn wf(&self) -> bool {
+        km_shape(self.rows@, self.n_keys as nat) && km_entries(self.rows@, self.hash@, self.n_keys as nat)
+        && km_distinct(self.rows@, self.hash@, self.n_keys as nat) && km_indexed(self.rows@, self.hash@)
+    }
+}
+/// number of rows marked stale in a row store
+pub open spec fn stale_count(rows: Seq<Seq<Value>>) -> nat
+    decreases rows.len()
+{
+    if rows.len() == 0 { 0 } else { stale_count(rows.drop_last()) + (if stale(rows.last()) { 1nat } else { 0nat }) }
+}
+pub proof fn lemma_stale_count_bound(rows: Seq<Seq<Value>>)
+    ensures stale_count(rows) <= rows.len()
+    decreases rows.len()
+{
+    if rows.len() > 0 { lemma_stale_count_bound(rows.drop_last()); }
+}
+pub proof fn lemma_stale_count_set(a: Seq<Seq<Value>>, b: Seq<Seq<Value>>, i: int)
+    requires a.len() == b.len(), 0 <= i < a.len(), !stale(a[i]), stale(b[i]), forall|j: int| 0 <= j < a.len() && j != i ==> #[trigger] b[j] == a[j],
+    ensures stale_count(b) == stale_count(a) + 1
+    decreases a.len()
+{
+    if i == a.len() - 1 {
+        assert(a.drop_last() =~= b.drop_last());
+    } else {
+        lemma_stale_count_set(a.drop_last(), b.drop_last(), i);
+        assert(a.last() == b.last());
+    }
+}
+pub proof fn lemma_stale_count_push(a: Seq<Seq<Value>>, r: Seq<Value>)
+    ensures stale_count(a.push(r)) == stale_count(a) + (if stale(r) { 1nat } else { 0nat })
+{
+    assert(a.push(r).drop_last() =~= a);
+}
+impl StagedOutputs {
+    /// n_stale counts the superseded rows, so len() is the number of live (indexed) rows
+    pub open spec fn counted(&self) -> bool { self.n_stale == stale_count(self.rows@) }
+}
+
+//@ impl core-relations/src/table/mod.rs impl StagedOutputs
+//@ fn clear
+//@ at sig
+        ensures final(self).rows@.len() == 0, final(self).hash@ == Map::<RowId, u64>::empty(), final(self).counted(), final(self).n_keys == old(self).n_keys,
+            old(self).n_keys <= table_arity() && 1 <= table_arity() ==> final(self).wf(),
+//@ end-fn
+//@ fn len
+//@ ret r
+//@ at sig
+        requires self.counted(),
+        ensures r == self.rows@.len() - stale_count(self.rows@),
+//@ at entry
+        proof { lemma_stale_count_bound(self.rows@); }
+//@ end-fn
+//@ fn insert
+//@ rewrite R-FNPARAM merge_fn StagedMergeFn
+//@ rewrite R-CLOSANN 0 &TableEntry bool
+//@ at sig
+        requires old(self).wf(), old(self).scratch@.len() == 0, row@.len() == table_arity(), merge_keeps_key(old(self).n_keys as nat),
+            old(self).counted(),
+        ensures
+            final(self).wf(), final(self).scratch@.len() == 0, final(self).n_keys == old(self).n_keys,
+            final(self).counted(),
+            // C05: a staged row colliding with an earlier row of the same batch goes through the merge function
+            stale(row@) ==> final(self).km() == old(self).km(),
+            !stale(row@) ==> applied(old(self).n_keys as nat, old(self).km(), row@, final(self).km()),
+//@ at entry
+        let ghost t0 = self.km();
+        proof {
+            lemma_stale_count_bound(self.rows@);
+            assert(t0.wf());
+        }
+//@ at closure 0 spec
+                requires te.row.ix() < self.rows@.len()
+                ensures r == (te.hashcode == hc && keyof(self.rows@[te.row.ix() as int], self.n_keys as nat) =~= keyof(row@, self.n_keys as nat))
+//@ at end
+        proof {
+            let n = self.n_keys as nat;
+            if self.km().rows.len() == t0.rows.len() { assert(step_same(n, t0, row@, self.km())); }
+            else if has_key(n, t0, row@) { assert(step_merge(n, t0, row@, self.km())); }
+            else {
+                assert(t0.rows.len() <= u32::MAX);
+                assert(self.km().rows =~= t0.rows.push(row@));
+                assert(self.km().idx =~= t0.idx.insert(RowId { rep: t0.rows.len() as u32 }, hcs(keyof(row@, n))));
+                assert(step_new(n, t0, row@, self.km()));
+            }
+            lemma_applied(n, t0, row@, self.km());
+            // n_stale counts the stale rows
+            if self.km().rows.len() != t0.rows.len() {
+                if has_key(n, t0, row@) {
+                    let id = choose|id: RowId| #[trigger] t0.idx.contains_key(id) && stale(self.rows@[id.ix() as int]) && self.rows@.len() == t0.rows.len() + 1
+                        && (forall|j: int| 0 <= j < t0.rows.len() && j != id.ix() ==> #[trigger] self.rows@[j] == t0.rows[j]);
+                    let mid = self.rows@.drop_last();
+                    assert(mid.len() == t0.rows.len());
+                    lemma_stale_count_set(t0.rows, mid, id.ix() as int);
+                    assert(self.rows@ =~= mid.push(self.rows@.last()));
+                    lemma_stale_count_push(mid, self.rows@.last());
+                } else {
+                    lemma_stale_count_push(t0.rows, row@);
+                }
+            }
+        }
 //@ end-fn
 //@ end-impl
 
